@@ -108,12 +108,17 @@ func (cl *ClientLimiter) gcLoop() {
 }
 
 func (cl *ClientLimiter) gc() {
-	ddl := time.Now().Add(-entryTtl)
+	now := time.Now()
+	ddl := now.Add(-entryTtl)
 	cl.m.Range(func(key netip.Addr, value *e) bool {
 		value.m.Lock()
 		lastSeen := value.lastSeen
+		// A forgotten entry comes back as a full bucket. Only forget a
+		// bucket that is full again, otherwise (burst > limit * entryTtl)
+		// the client would get its burst back before it has earned it.
+		refilled := value.l.TokensAt(now) >= float64(cl.opts.Burst)
 		value.m.Unlock()
-		if lastSeen.Before(ddl) {
+		if lastSeen.Before(ddl) && refilled {
 			cl.m.Delete(key)
 		}
 		return true
